@@ -513,13 +513,15 @@ def corpus(ctx):
     # property's range [1e-6, 1e3]): the gain goes through a strongly graded innovation factor; no singular value of it
     # may be discarded (seeded change C12-s2: a fixed cut-off 1e-6 in the least-squares solve)
     lv = problems.PolyField(2, 1, [[(Fraction(1, 2), (1, 0, 0)), (Fraction(-3, 4), (1, 1, 0))], [(Fraction(-1), (0, 1, 0)), (Fraction(1, 4), (1, 1, 0))]])
-    cfg = sm.Config(fact="dense", solver="solver", strategy="fixedinterval", lin="ts0", q=2, init="exact")
-    hs = [0.125, 0.25, 0.125, 0.25]
+    # (small steps: the posterior standard deviations (~1e-7) are below the small noise levels, so that the innovation factor
+    # really is graded over nine orders of magnitude)
+    cfg = sm.Config(fact="dense", solver="solver", strategy="fixedinterval", lin="ts0", q=3, init="exact")
+    hs = [2.0**-6, 2.0**-5, 2.0**-6, 2.0**-5]
     sol, _ = make_solution(cfg, lv, [np.array([1.0, 0.5])], 0.0, hs)
     base = np.asarray(sol.u.mean[0], dtype=np.float64)
-    offs = np.array([[0.0, 0.0], [2e-6, 0.5], [-1e-6, -0.25], [0.25, 1e-6], [3e-6, 0.125]])
-    data = base + offs
     std = np.array([[1e-5, 1e3], [1e-6, 1e3], [1e-5, 1e2], [1e2, 1e-6], [1e-6, 1e3]])
+    # data at the scale of the noise (whitened residuals O(1): every datum, also the tightly observed ones, matters for what follows)
+    data = base + std * np.array([[0.0, 0.0], [0.5, 0.25], [-0.75, -0.5], [0.25, 1.0], [1.5, 0.125]])
     for avg in (False, True):
         case = {"corpus": "graded-noise", "fact": "dense", "data": data.tolist(), "std": std.tolist(), "steps": hs, "avg": avg}
         check_timeseries(ctx, cfg, 2, sol, 0, avg, data, std, case, True)
